@@ -94,7 +94,7 @@ TName(g) == CASE g.k = "B" -> "B(" \o TNames(g.parts, 1) \o ")"
               [] g.k \in {"R", "SEK3"} -> g.k \o ToString(g.n)
               [] OTHER -> g.k
 
-Mutators == {"assign", "massign", "mul", "copyctor", "plus", "setid", "subassign", "subsetid", "submul"}
+Mutators == {"assign", "massign", "mul", "amul", "bmul", "copyctor", "plus", "setid", "subassign", "subsetid", "submul"}
 Observers == {"cast", "const", "const2", "subconst"}
 SubOps == {"subassign", "subsetid", "submul", "subconst"}
 CopyOps == {"assign", "massign", "copyctor"}
@@ -112,7 +112,8 @@ GeometryOK(e) ==
 \* position the specification assigns to a named view, given the tracked memory size
 ViewOK(g, v, n) ==
   IF v.k = "val" THEN v.v \in {"V0", "V1"} /\ v.p = geo[1].pos[v.v]
-  ELSE v.k \in {"map", "cmap"} /\ v.v \in MLBufNames(g) /\ v.p = MLViewPos(g, v.v)
+  ELSE v.k \in {"map", "cmap"} /\ (IF v.v \in {"V0", "V1"} THEN v.p = geo[1].pos[v.v]      \* a view over a value object's memory
+                                   ELSE v.v \in MLBufNames(g) /\ v.p = MLViewPos(g, v.v))
 Rel(a, b, r) == IF a.p = b.p THEN "same" ELSE IF a.p + r <= b.p \/ b.p + r <= a.p THEN "disj" ELSE "partial"
 
 \* cells no view and no value object ever covers (outer guards of the buffer, guards around the value objects)
@@ -195,7 +196,7 @@ CheckStep(e, post) ==
                (IF e.x = "fresh" THEN BitChk("C16.copy", "subassign.fresh", Rd(post, lo, len), AsSeq(e.fresh, Len(e.fresh)))
                 ELSE BitChk("C16.copy", "subassign.part", Rd(post, lo, len), srcv))
                \o SameChk("C16.same", "subassign", dstObj, e.ref, sc)
-          [] e.op \in {"mul", "plus", "setid", "subsetid", "submul"} ->
+          [] e.op \in {"mul", "amul", "bmul", "plus", "setid", "subsetid", "submul"} ->
                SameChk("C16.same", e.op, dstObj, e.ref, sc)
           [] e.op = "cast" ->
                (IF Len(e.out) = r /\ \A j \in 1..r : ConvOK(mem[e.s.p + j - 1], e.out[j], e.to) THEN <<>>
